@@ -15,6 +15,7 @@ mod model;
 mod mon;
 mod parse;
 mod rng;
+mod sched;
 mod snap;
 mod world;
 
